@@ -339,3 +339,39 @@ pub fn enum_stream(k: [usize; 4], alias_mode: u64, variant: u64, st: &mut Stream
     }
     v
 }
+
+/// Long single chains: `(\xa f)^n \xa \a \b` + tail. The optimised implementation walks such a
+/// chain iteratively with a buffer; any bound or off-by-one in that walk only shows on chains
+/// much longer than the 0..7 of the other phases.
+pub const LONG_CHAIN_LENGTHS: [usize; 16] =
+    [8, 15, 16, 17, 31, 32, 33, 34, 63, 64, 65, 100, 255, 256, 257, 600];
+
+pub fn long_chain_stream(n: usize, alias_mode: u64, filler: u64, st: &mut StreamStats) -> Vec<Tok> {
+    let mut v = vec![];
+    for j in 0..n {
+        let name = if alias_mode == 1 && j % 3 == 1 { "xb" } else { "expandafter" };
+        if name == "xb" {
+            st.xa_aliases += 1;
+        }
+        st.xa_tokens += 1;
+        v.push(cs(name));
+        v.push(match filler {
+            0 => ch('x'),
+            1 => cs("c"),
+            _ => {
+                if j % 2 == 0 {
+                    ch('y')
+                } else {
+                    cs("d")
+                }
+            }
+        });
+    }
+    st.xa_tokens += 1;
+    v.push(cs("expandafter"));
+    v.push(cs("a"));
+    v.push(cs("b"));
+    st.chains_by_len[7] += 1;
+    v.extend([ch('x'), ch('y'), ch('.'), cs("z"), ch(';')]);
+    v
+}
